@@ -1,8 +1,106 @@
-import Hidi
-namespace Hidi.Props.C03
-open Hidi
+/-
+  C03 — Collision modes.
 
-/-- placeholder obligation replaced by the real theorems below as they are proved -/
-theorem init_not_dead (cfg : Config) : (Dev.init cfg).dead = false := rfl
+  The specification is stated on *holders*: `holders tr (n, ch)` = number of held keys whose recorded pair is
+  `(n, ch)` — a quantity of the history, not the device's counter.  `C03_counter_is_holders` is the refinement
+  fact (the counter array of the device equals it in every reachable state); `C03_press` / `C03_release`
+  give the exact output of a press / release in each of the four modes in terms of holders.
+-/
+import HidiProofs.KeyHistories
+import HidiProofs.Props.C02
+namespace Hidi.Props.C03
+open Hidi Hidi.Spec Hidi.EngineSim Hidi.KeyHist
+
+theorem C03_monitor (cfg : Config) (evs : List Ev) (disc : Bool)
+    (hacc : Accepted cfg = true) (hk : evs.all keyOnly = true) :
+    failsOf "C03" (checkAll (modelTrace cfg evs disc)) = [] :=
+  no_fails_of "C03" (by decide) cfg evs disc hacc hk
+
+/-- **refinement**: after every history in the quantifier the device's counter for (channel, note) is the number
+    of held keys whose recorded pair is that (note, channel); recorded keys are distinct -/
+theorem C03_counter_is_holders (cfg : Config) (evs : List Ev) (hacc : Accepted cfg = true)
+    (hk : evs.all keyOnly = true) (hd : Disciplined cfg evs) :
+    let d := ((Dev.init cfg).run evs).1
+    (akeys d.noteTr).Nodup ∧ ∀ ch n, d.count ch n = (holders d.noteTr (n, ch) : Int) := by
+  intro d
+  have hinv := final_inv hacc hk
+  have hc := (hinv.okp hd).core
+  rw [modelSteps_final] at hc
+  exact ⟨hc.nodup, hc.cnt⟩
+
+/-- the messages of a press that resolves to `(n, ch)` with velocity `v` when `h` keys already hold that pair -/
+def pressSpec (mode : Collision) (h ch n v : Nat) : List Out :=
+  match mode with
+  | .off | .retrigger => [noteOnMsg ch n v]
+  | .noRepeat => if h = 0 then [noteOnMsg ch n v] else []
+  | .interrupt => if h = 0 then [noteOnMsg ch n v] else [noteOffMsg ch n, noteOnMsg ch n v]
+
+/-- the messages of a release of a key recorded as `(n, ch)` when `h ≥ 1` keys (incl. this one) hold that pair -/
+def releaseSpec (mode : Collision) (h ch n : Nat) : List Out :=
+  match mode with
+  | .off => [noteOffMsg ch n]
+  | _ => if h = 1 then [noteOffMsg ch n] else []
+
+/-- **press**: `off` / `retrigger` always Note On; `no_repeat` only for the first holder; `interrupt` Note Off then
+    Note On when already held.  For every state whose counter equals the holders (every reachable one). -/
+theorem C03_press {cfg : Config} {d : Dev} (hd : DInv cfg d)
+    (hcnt : ∀ ch n, d.count ch n = (holders d.noteTr (n, ch) : Int))
+    (sub : Sub) (code : Code) (hna : alookup code cfg.actions = none) (hsw : (kt d code 1).exitComplete = false) :
+    (d.handleKey sub code 1).2 =
+      match resolve cfg (StObs.ofDev d) (u8 cfg.vel) sub code with
+      | none => []
+      | some (n, ch, v) => pressSpec cfg.mode (holders d.noteTr (n, ch)) ch n v := by
+  rw [handleKey_eq hd, hna]
+  simp only [hsw, Bool.false_eq_true, and_false, if_false, if_true]
+  rw [noteOn_eq (kt_dinv hd code 1), ofDev_kt]
+  have h9 := (kt_frame d code 1).2.2.2.2.2.2.2.2.1
+  cases resolve cfg (StObs.ofDev d) (u8 cfg.vel) sub code with
+  | none => rfl
+  | some r =>
+    obtain ⟨n, ch, v⟩ := r
+    simp only
+    have : (kt d code 1).count ch n = (holders d.noteTr (n, ch) : Int) := by
+      rw [← hcnt]; simp only [Dev.count, h9]
+    rw [pressOuts_spec cfg.mode _ _ this]
+    rfl
+
+/-- **release**: `off` always Note Off; the managed modes only when this is the last holder -/
+theorem C03_release {cfg : Config} {d : Dev} (hd : DInv cfg d)
+    (hcnt : ∀ ch n, d.count ch n = (holders d.noteTr (n, ch) : Int))
+    (sub : Sub) (code : Code) (hna : alookup code cfg.actions = none) :
+    (d.handleKey sub code 0).2 =
+      match alookup code d.noteTr with
+      | none => []
+      | some (n, ch) => releaseSpec cfg.mode (holders d.noteTr (n, ch)) ch n := by
+  rw [C02.C02_release_pinned hd sub code hna]
+  cases alookup code d.noteTr with
+  | none => rfl
+  | some q =>
+    obtain ⟨n, ch⟩ := q
+    simp only
+    rw [releaseOuts_spec cfg.mode _ _ (hcnt ch n)]
+    rfl
+
+/-- consequence ("exactly one Note Off, when the last key is released"): in a managed mode a release is silent
+    iff another key still holds the pitch -/
+theorem C03_last_release_only {cfg : Config} {d : Dev} (hd : DInv cfg d)
+    (hcnt : ∀ ch n, d.count ch n = (holders d.noteTr (n, ch) : Int))
+    (sub : Sub) (code : Code) (hna : alookup code cfg.actions = none) (hm : cfg.mode ≠ .off)
+    {n ch : Nat} (hl : alookup code d.noteTr = some (n, ch)) :
+    (d.handleKey sub code 0).2 = if holders d.noteTr (n, ch) = 1 then [noteOffMsg ch n] else [] := by
+  rw [C03_release hd hcnt sub code hna, hl]
+  cases hmode : cfg.mode <;> simp_all [releaseSpec]
+
+/-! ### non-vacuity: two keys on one pitch in `interrupt` mode -/
+
+def exCfg : Config :=
+  { maps := [{ name := "Piano", midi := [(("", 30), ⟨60, 0⟩), (("", 31), ⟨60, 0⟩)], analog := [], dz := [], defDz := [] }],
+    actions := [], exitSeq := [], mode := .interrupt, defOct := 0, defSemi := 0, defCh := 1,
+    defMap := 0, vel := 64, axes := [] }
+
+example : ((Dev.init exCfg).run [.key "" 30 1, .key "" 31 1, .key "" 30 0, .key "" 31 0]).2 =
+    [[noteOnMsg 0 60 64], [noteOffMsg 0 60, noteOnMsg 0 60 64], [], [noteOffMsg 0 60]] := by decide
+example : Disciplined exCfg [.key "" 30 1, .key "" 31 1, .key "" 30 0, .key "" 31 0] := by
+  unfold Disciplined; decide
 
 end Hidi.Props.C03
